@@ -226,6 +226,16 @@ fn minimise(sc: &Scenario, seed: u64, class: &str) -> Scenario {
             .map(|c| c.class == class)
             .unwrap_or(false)
     };
+    let try_apply = |cur: &mut Scenario, f: &dyn Fn(&mut Scenario)| -> bool {
+        let mut cand = cur.clone();
+        f(&mut cand);
+        if cand != *cur && fails(&cand) {
+            *cur = cand;
+            true
+        } else {
+            false
+        }
+    };
     let mut cur = sc.clone();
     // 1. episodes
     if cur.episodes.len() > 1 {
@@ -242,28 +252,7 @@ fn minimise(sc: &Scenario, seed: u64, class: &str) -> Scenario {
         );
         cur.episodes = eps;
     }
-    // 2. steps inside each remaining episode (last first)
-    for i in (0..cur.episodes.len()).rev() {
-        let base = cur.clone();
-        let steps = vcore::ddmin::ddmin(
-            cur.episodes[i].steps.clone(),
-            |sub| {
-                let mut s = base.clone();
-                s.episodes[i].steps = sub.to_vec();
-                fails(&s)
-            },
-            120,
-        );
-        cur.episodes[i].steps = steps;
-    }
-    // 3. simplify parameters
-    let try_apply = |cur: &mut Scenario, f: &dyn Fn(&mut Scenario)| {
-        let mut cand = cur.clone();
-        f(&mut cand);
-        if cand != *cur && fails(&cand) {
-            *cur = cand;
-        }
-    };
+    // 2. configuration and episode parameters to their defaults
     try_apply(&mut cur, &|s| s.cfg = Cfg::default_cfg());
     try_apply(&mut cur, &|s| s.cfg.layout = Layout::V4);
     try_apply(&mut cur, &|s| s.cfg.backlog = 8);
@@ -271,29 +260,102 @@ fn minimise(sc: &Scenario, seed: u64, class: &str) -> Scenario {
         s.cfg.thr = 3;
         s.cfg.max = 5;
     });
-    for i in 0..cur.episodes.len() {
-        try_apply(&mut cur, &|s| s.episodes[i].reuse = false);
-        try_apply(&mut cur, &|s| s.episodes[i].steer = None);
-        try_apply(&mut cur, &|s| {
-            s.episodes[i].wild = false;
-            s.episodes[i].alt_dst = false;
-        });
-        try_apply(&mut cur, &|s| s.episodes[i].alt_dst = false);
-        try_apply(&mut cur, &|s| s.episodes[i].port = 0);
-        try_apply(&mut cur, &|s| s.episodes[i].server_first = false);
-        try_apply(&mut cur, &|s| s.episodes[i].keep = true);
-        // weaken faults: Hold(2)->Hold(1), sizes -> 8
-        for j in 0..cur.episodes[i].steps.len() {
-            try_apply(&mut cur, &|s| {
-                let st = &mut s.episodes[i].steps[j];
-                *st = match st.clone() {
-                    Step::Round(Fate::Hold(k), b) if k > 1 => Step::Round(Fate::Hold(1), b),
-                    Step::Round(a, Fate::Hold(k)) if k > 1 => Step::Round(a, Fate::Hold(1)),
-                    Step::CWrite(n) if n != 8 => Step::CWrite(8),
-                    Step::SWrite(n) if n != 8 => Step::SWrite(8),
-                    o => o,
-                };
+    // Normalising loop: the same root cause should end in the same script
+    // whatever random script found it, so besides deleting steps (ddmin) the
+    // script is rewritten towards a normal form: episodes merged, faults
+    // removed or weakened, cancel / shutdown replaced by a plain drop, the
+    // listener bound first.
+    for _pass in 0..4 {
+        let before = cur.clone();
+        // merge neighbouring episodes
+        let mut i = 0;
+        while i + 1 < cur.episodes.len() {
+            let merged = try_apply(&mut cur, &|s| {
+                let a = s.episodes.remove(i);
+                let mut steps = a.steps;
+                steps.extend(s.episodes[i].steps.clone());
+                s.episodes[i].steps = steps;
             });
+            if !merged {
+                i += 1;
+            }
+        }
+        for i in 0..cur.episodes.len() {
+            try_apply(&mut cur, &|s| s.episodes[i].reuse = false);
+            try_apply(&mut cur, &|s| s.episodes[i].steer = None);
+            try_apply(&mut cur, &|s| {
+                s.episodes[i].wild = false;
+                s.episodes[i].alt_dst = false;
+            });
+            try_apply(&mut cur, &|s| s.episodes[i].alt_dst = false);
+            try_apply(&mut cur, &|s| s.episodes[i].port = 0);
+            try_apply(&mut cur, &|s| s.episodes[i].server_first = false);
+            try_apply(&mut cur, &|s| s.episodes[i].keep = true);
+        }
+        // delete steps (last episode first)
+        for i in (0..cur.episodes.len()).rev() {
+            let base = cur.clone();
+            let steps = vcore::ddmin::ddmin(
+                cur.episodes[i].steps.clone(),
+                |sub| {
+                    let mut s = base.clone();
+                    s.episodes[i].steps = sub.to_vec();
+                    fails(&s)
+                },
+                120,
+            );
+            if steps.len() < cur.episodes[i].steps.len() {
+                cur.episodes[i].steps = steps;
+            }
+        }
+        // rewrite steps
+        for i in 0..cur.episodes.len() {
+            let mut j = 0;
+            while j < cur.episodes[i].steps.len() {
+                let st = cur.episodes[i].steps[j].clone();
+                let set = |cur: &mut Scenario, with: Vec<Step>| -> bool {
+                    try_apply(cur, &|s| {
+                        s.episodes[i].steps.splice(j..j + 1, with.clone());
+                    })
+                };
+                let clean = Step::Round(Fate::Deliver, Fate::Deliver);
+                match st {
+                    Step::Round(a, b) if a != Fate::Deliver || b != Fate::Deliver => {
+                        let _ = set(&mut cur, vec![clean.clone()])
+                            || (a != Fate::Deliver && b != Fate::Deliver && set(&mut cur, vec![Step::Round(Fate::Deliver, b)]))
+                            || (a != Fate::Deliver && b != Fate::Deliver && set(&mut cur, vec![Step::Round(a, Fate::Deliver)]))
+                            || (matches!(a, Fate::Hold(k) if k > 1) && set(&mut cur, vec![Step::Round(Fate::Hold(1), b)]))
+                            || (matches!(b, Fate::Hold(k) if k > 1) && set(&mut cur, vec![Step::Round(a, Fate::Hold(1))]));
+                    }
+                    Step::Cancel => {
+                        let _ = set(&mut cur, vec![Step::CDrop]) || set(&mut cur, vec![clean.clone(), Step::CDrop]);
+                    }
+                    Step::CShut => {
+                        let _ = set(&mut cur, vec![Step::CDrop]);
+                    }
+                    Step::SShut => {
+                        let _ = set(&mut cur, vec![Step::SDrop]);
+                    }
+                    Step::CWrite(n) if n != 8 => {
+                        let _ = set(&mut cur, vec![Step::CWrite(8)]);
+                    }
+                    Step::SWrite(n) if n != 8 => {
+                        let _ = set(&mut cur, vec![Step::SWrite(8)]);
+                    }
+                    Step::Listen if j > 0 => {
+                        // bind the listener first
+                        let _ = try_apply(&mut cur, &|s| {
+                            let l = s.episodes[i].steps.remove(j);
+                            s.episodes[i].steps.insert(0, l);
+                        });
+                    }
+                    _ => {}
+                }
+                j += 1;
+            }
+        }
+        if cur == before {
+            break;
         }
     }
     cur
